@@ -41,43 +41,59 @@ def arraybox_table(ctx, world):
     nt_v = world.table.notrace_quals("autograd.core.VJPNode")
     nt_j = world.table.notrace_quals("autograd.core.JVPNode")
     n = 0
+    from ..tutil import expand, unseq
+
+    ev = world.ev
+
+    def body_term(fn, owner="ArrayBox", mod=BOXES):
+        """(evaluated body with local helpers inlined, [parameter symbols])"""
+        res, sy, m_, fn_, sc_ = eval_function(world, mod, f"{owner}.{fn.name}")
+        res = unseq(expand(ev, res, ("autograd.numpy.numpy_wrapper._astype",))) if res is not None else None
+        return res, [sy[a.arg] for a in fn.args.args]
+
+    def wrapped_of(t):
+        if t is None or t.op != "call":
+            return None
+        r, pre = resolve_callee(ev, t)
+        return r if (r is not None and r.kind == "wrapped" and not pre) else None
+
+    def value_of(t, selfs):
+        return t.op == "attr" and t.name == "_value" and t.obj is selfs
+
     for name, fn in sorted(methods.items()):
         loc = loc_of(m, fn)
         inst = f"ArrayBox.{name}"
         if name in ops["binary"]:
             n += 1
             want_fn, order = ops["binary"][name]
-            e = _ret_expr(fn)
+            e, ps = body_term(fn)
             ok = False
-            why = "body is not a single `return anp.<function>(a, b)`"
-            if isinstance(e, ast.Call) and len(e.args) == 2 and not e.keywords:
-                r = world.repo.resolve_expr(m, e.func)
-                selfn, othern = fn.args.args[0].arg, fn.args.args[1].arg
-                got = [a.id if isinstance(a, ast.Name) else None for a in e.args]
-                want_args = [selfn, othern] if order == "self,other" else [othern, selfn]
-                if r is not None and r.kind == "wrapped":
-                    allowed = ops["aliases"].get(want_fn, [want_fn])
-                    obj_ok = r.name in allowed or world.env.get("numpy", r.name) is world.env.get("numpy", want_fn)
-                    if not obj_ok:
-                        why = f"maps to numpy.{r.name}, the data model says numpy.{want_fn}"
-                    elif got != want_args:
-                        why = f"operands are passed as ({', '.join(map(str, got))}), the data model says ({', '.join(want_args)})"
-                    else:
-                        ok = True
-                        if name in ops["comparison_dunders"]:
-                            if not (r.qual in nt_v and r.qual in nt_j):
-                                ok = False
-                                why = f"comparison maps to {r.qual}, which is traced: comparisons must yield plain values"
+            why = "body is not `return anp.<function>(a, b)`"
+            r = wrapped_of(e)
+            if r is not None and len(e.args) == 2 and not e.kw and len(ps) == 2:
+                want_args = [ps[0], ps[1]] if order == "self,other" else [ps[1], ps[0]]
+                allowed = ops["aliases"].get(want_fn, [want_fn])
+                obj_ok = r.name in allowed or world.env.get("numpy", r.name) is world.env.get("numpy", want_fn)
+                if not obj_ok:
+                    why = f"maps to numpy.{r.name}, the data model says numpy.{want_fn}"
+                elif not all(a is b for a, b in zip(e.args, want_args)):
+                    why = f"operands are passed as ({', '.join(str(a) for a in e.args)}), the data model says ({', '.join(str(a) for a in want_args)})"
+                else:
+                    ok = True
+                    if name in ops["comparison_dunders"]:
+                        if not (r.qual in nt_v and r.qual in nt_j):
+                            ok = False
+                            why = f"comparison maps to {r.qual}, which is traced: comparisons must yield plain values"
             if ok:
                 ctx.ob("A14", inst, True, loc, sample=f"{want_fn}({order})")
             else:
                 ctx.fail("A14", inst, inst, loc, f"{inst}: {why}", f"an expression using the operator form with a traced operand (e.g. `2.0 {name} x` / `x {name} y`), compared with the function form")
         elif name in ops["unary"]:
             n += 1
-            e = _ret_expr(fn)
-            r = world.repo.resolve_expr(m, e.func) if isinstance(e, ast.Call) else None
+            e, ps = body_term(fn)
+            r = wrapped_of(e)
             want = ops["unary"][name]
-            ok = r is not None and r.kind == "wrapped" and (r.name == want or world.env.get("numpy", r.name) is world.env.get("numpy", want)) and len(e.args) == 1 and isinstance(e.args[0], ast.Name) and e.args[0].id == fn.args.args[0].arg
+            ok = r is not None and (r.name == want or world.env.get("numpy", r.name) is world.env.get("numpy", want)) and len(e.args) == 1 and not e.kw and e.args[0] is ps[0]
             if ok:
                 ctx.ob("A14", inst, True, loc)
             else:
@@ -87,26 +103,24 @@ def arraybox_table(ctx, world):
             ctx.fail("A6.ops", inst, inst, loc, f"ArrayBox defines {name}: assignment into / in-place update of a traced array would be accepted silently", "x[0] = 1.0 or x += y inside a differentiated function")
         elif name == "__hash__":
             n += 1
-            e = _ret_expr(fn)
-            ok = isinstance(e, ast.Call) and isinstance(e.func, ast.Name) and e.func.id == "id" and len(e.args) == 1 and isinstance(e.args[0], ast.Name) and e.args[0].id == fn.args.args[0].arg
+            e, ps = body_term(fn)
+            ok = e is not None and is_call_to(e, "builtins.id") and len(e.args) == 1 and e.args[0] is ps[0]
             _okfail(ctx, "A14", inst, ok, loc, "ArrayBox.__hash__ is not id(self): boxes are graph nodes, equality is element-wise (returns an array), so a value-based hash makes two different nodes that hold equal numbers collide as dict/set keys", "a memo table / set keyed on traced scalars, evaluated where two different intermediate values coincide numerically")
         elif name == "__len__":
             n += 1
-            e = _ret_expr(fn)
-            ok = isinstance(e, ast.Call) and isinstance(e.func, ast.Name) and e.func.id == "len" and _is_self_value(e.args[0], fn)
+            e, ps = body_term(fn)
+            ok = e is not None and is_call_to(e, "builtins.len") and len(e.args) == 1 and value_of(e.args[0], ps[0])
             _okfail(ctx, "A14", inst, ok, loc, "__len__ does not return len(self._value)", "len(x) on a traced array")
         elif name == "astype":
             n += 1
-            e = _ret_expr(fn)
-            r = world.repo.resolve_expr(m, e.func) if isinstance(e, ast.Call) else None
-            ok = r is not None and r.qual == "autograd.numpy.numpy_wrapper._astype" and e.args and isinstance(e.args[0], ast.Name) and e.args[0].id == fn.args.args[0].arg
+            e, ps = body_term(fn)
+            ok = e is not None and is_call_to(e, "autograd.numpy.numpy_wrapper._astype") and bool(e.args) and e.args[0] is ps[0]
             _okfail(ctx, "A14", inst, ok, loc, "astype does not delegate to the traced _astype primitive", "x.astype(float32) on a traced array")
         elif name == "__getitem__":
             n += 1
             ok = world.repo.is_primitive_ref(world.repo.resolve_expr(m, ast.Attribute(value=ast.Name(id="ArrayBox", ctx=ast.Load()), attr="__getitem__", ctx=ast.Load())))
-            e = _ret_expr(fn)
-            ps = [a.arg for a in fn.args.args]
-            ok = ok and isinstance(e, ast.Subscript) and isinstance(e.value, ast.Name) and e.value.id == ps[0] and isinstance(e.slice, ast.Name) and e.slice.id == ps[1]
+            e, ps = body_term(fn)
+            ok = ok and e is not None and e.op == "sub" and len(ps) == 2 and e.obj is ps[0] and e.idx is ps[1]
             _okfail(ctx, "A14", inst, ok, loc, "__getitem__ is not the primitive A[idx]", "any indexing of a traced array")
     for name in ops["inplace_dunders"]:
         if name not in methods:
@@ -125,31 +139,47 @@ def arraybox_table(ctx, world):
                     nm = s.name if isinstance(s, ast.FunctionDef) else None
                     if nm in ops["inplace_dunders"] and st.name != "ArrayBox":
                         ctx.fail("A6.ops", f"{st.name}.{nm}", f"{mod.name}.{st.name}.{nm}", loc_of(mod, s), f"{st.name} defines {nm}: in-place assignment into a traced value is accepted silently", "assignment into a traced container/array")
-    # properties
+    # properties: `name = property(<lambda or function>)` or `@property def name(self)`
+    def getter(pname):
+        v = assigns.get(pname)
+        if isinstance(v, ast.Call) and v.args:
+            pr = world.repo.resolve_expr(m, v.func)
+            if pr is not None and pr.qual == "builtins.property":
+                g = v.args[0]
+                if isinstance(g, ast.Lambda):
+                    return g, v
+                if isinstance(g, ast.Name) and g.id in methods:
+                    return methods[g.id], v
+        fn_ = methods.get(pname)
+        if fn_ is not None and any((world.repo.resolve_expr(m, d) is not None and world.repo.resolve_expr(m, d).qual == "builtins.property") for d in fn_.decorator_list):
+            return fn_, fn_
+        return None, v
+
+    def getter_term(pname):
+        g, site = getter(pname)
+        if g is None:
+            return None, None, site
+        selfs = T("sym", name="self", role="param")
+        res = ev.apply(T("closure", g, m, fnode=g, scope=Scope(), bound=[], boundkw={}), [selfs], {})
+        return unseq(expand(ev, res, ())), selfs, site
+
     for pname in ops["constant_properties"]:
         n += 1
-        v = assigns.get(pname)
-        ok = False
-        if isinstance(v, ast.Call) and isinstance(v.func, ast.Name) and v.func.id == "property" and v.args and isinstance(v.args[0], ast.Lambda):
-            b = v.args[0].body
-            p = v.args[0].args.args[0].arg
-            ok = isinstance(b, ast.Attribute) and b.attr == pname and isinstance(b.value, ast.Attribute) and b.value.attr == "_value" and isinstance(b.value.value, ast.Name) and b.value.value.id == p
-        _okfail(ctx, "A14", f"ArrayBox.{pname}", ok, loc_of(m, v) if v is not None else loc_of(m, cls), f"property {pname} does not return self._value.{pname}", f"x.{pname} on a traced array")
-    v = assigns.get("T")
-    ok = False
-    if isinstance(v, ast.Call) and v.args and isinstance(v.args[0], ast.Lambda):
-        b = v.args[0].body
-        r = world.repo.resolve_expr(m, b.func) if isinstance(b, ast.Call) else None
-        ok = r is not None and r.kind == "wrapped" and r.name == "transpose" and len(b.args) == 1
+        b, selfs, site = getter_term(pname)
+        ok = b is not None and b.op == "attr" and b.name == pname and value_of(b.obj, selfs)
+        _okfail(ctx, "A14", f"ArrayBox.{pname}", ok, loc_of(m, site) if site is not None else loc_of(m, cls), f"property {pname} does not return self._value.{pname}", f"x.{pname} on a traced array")
+    b, selfs, site = getter_term("T")
+    r = wrapped_of(b)
+    ok = r is not None and r.name == "transpose" and len(b.args) == 1 and not b.kw and b.args[0] is selfs
     n += 1
     _okfail(ctx, "A14", "ArrayBox.T", ok, loc_of(m, cls), "property T is not anp.transpose(self)", "x.T on a traced array")
     # Box.__bool__
     tm, bfn = world.repo.find_def("autograd.tracer", "Box.__bool__")
-    e = _ret_expr(bfn)
-    ok = isinstance(e, ast.Call) and isinstance(e.func, ast.Name) and e.func.id == "bool" and _is_self_value(e.args[0], bfn)
+    e, ps = body_term(bfn, owner="Box", mod="autograd.tracer")
+    ok = e is not None and is_call_to(e, "builtins.bool") and len(e.args) == 1 and value_of(e.args[0], ps[0])
     n += 1
     _okfail(ctx, "A14", "Box.__bool__", ok, loc_of(tm, bfn), "Box.__bool__ does not return bool(self._value)", "`if x > 0:` inside a differentiated function")
-    ctx.floor("A14 ArrayBox table entries", n, 30)
+    ctx.floor("A14 ArrayBox table entries", n, 28)
 
 
 def _is_self_value(e, fn):
@@ -224,7 +254,7 @@ def container_boxes(ctx, world):
                         ps = [a.arg for a in fn.args.args]
                         ok = f is not None and f.qual == f"autograd.builtins.{prim}" and len(e.args) == 2 and isinstance(e.args[0], ast.Name) and e.args[0].id == ps[0] and isinstance(e.args[1], ast.Starred) and isinstance(e.args[1].value, ast.Name) and e.args[1].value.id == ps[1]
                 _okfail(ctx, "A14.containers", f"SequenceBox.{meth}", ok, loc_of(m, fn) if fn else loc_of(m, cls), f"SequenceBox.{meth} is not {prim}(self, *other)", "traced_tuple + (a, b) / (a, b) + traced_tuple", construct=f"autograd.builtins.SequenceBox.{meth}")
-    ctx.floor("A14.containers methods", n, 16)
+    ctx.floor("A14.containers methods", n, 14)
 
 
 # --------------------------------------------------------------------------------------------- A15
@@ -241,49 +271,58 @@ def operators(ctx, world):
     args, kw = syms["args"], syms["kwargs"]
     outer = sc.parent
     argnum, fun, uop = outer.lookup("argnum"), outer.lookup("fun"), outer.parent.lookup("unary_operator") if outer.parent else None
-    r = strip_seq(r)
-    ok_shape = r is not None and r.op == "call" and r.fn is uop and len(r.args) >= 2
-    if not ok_shape:
+    from ..tutil import expand, specialise, unseq
+
+    is_int_test = lambda a: a.op == "call" and a.fn.op == "ref" and a.fn.ref.qual.endswith("isinstance") and len(a.args) == 2 and a.args[0] is argnum and a.args[1].op == "ref" and a.args[1].ref.qual == "builtins.int"
+    dec = lambda v: (lambda a: v if is_int_test(a) else None)
+    r = unseq(expand(ev, r, {"autograd.util.subvals"})) if r is not None else None
+    forms = {}
+    for v in (True, False):
+        rv = specialise(r, dec(v)) if r is not None else None
+        forms[v] = rv if (rv is not None and rv.op == "call" and rv.fn is uop and len(rv.args) >= 2) else None
+    if forms[True] is None or forms[False] is None:
         ctx.fail("A15", "unary_to_nary:call", f"{q}:call", loc, "nary_f does not call unary_operator(unary_f, x, *nary_op_args, **nary_op_kwargs)", "any operator call")
     else:
-        uf, xsel = r.args[0], r.args[1]
         # selection
-        sel_int = sel_tup = None
-        if xsel.op == "if":
-            c = xsel.cond
-            if is_call_to(c, "builtins.isinstance") and c.args[0] is argnum:
-                sel_int, sel_tup = xsel.then, xsel.other
-        ok_int = sel_int is not None and sel_int.op == "sub" and sel_int.obj is args and sel_int.idx is argnum
+        sel_int, sel_tup = forms[True].args[1], forms[False].args[1]
+        ok_int = sel_int.op == "sub" and sel_int.obj is args and sel_int.idx is argnum
         ok_tup = False
-        if sel_tup is not None and is_call_to(sel_tup, "builtins.tuple") and sel_tup.args and sel_tup.args[0].op == "comp":
-            c = sel_tup.args[0]
+        c = sel_tup
+        if c.op == "call" and c.fn.op == "ref" and c.fn.ref.qual in ("builtins.tuple", "builtins.list") and len(c.args) == 1:
+            c = c.args[0]
+        if c.op == "comp" and not c.conds:
             e = c.elt
-            ok_tup = c.src is argnum and e.op == "sub" and e.obj is args and e.idx.op == "iterelem"
+            ok_tup = c.src is argnum and e.op == "sub" and e.obj is args and e.idx.op == "iterelem" and e.idx.src is argnum
         _okfail(ctx, "A15", "unary_to_nary: x = args[argnum] (int)", ok_int, loc, "the differentiated argument is not selected as args[argnum]", "grad(f, 1)(a, b)", construct=f"{q}:select-int")
         _okfail(ctx, "A15", "unary_to_nary: x = tuple(args[i] for i in argnum)", ok_tup, loc, "the differentiated arguments are not selected as tuple(args[i] for i in argnum)", "grad(f, (0, 2))(a, b, c)", construct=f"{q}:select-tuple")
         # substitution: unary_f(X) = fun(*subvals(args, [(argnum, X)]), **kwargs)
-        clo = uf
-        while clo.op == "call" and clo.args:
-            clo = clo.args[-1]
-        X = T("sym", name="X", role="param")
-        res = strip_seq(ev.apply(clo, [X], {}, [])) if clo.op == "closure" else None
-        ok_sub_int = ok_sub_tup = ok_kw = False
-        if res is not None and res.op == "call" and res.fn is fun and len(res.args) == 1 and res.args[0].op == "star":
-            ok_kw = len(res.dstar) == 1 and res.dstar[0] is kw
-            sv = res.args[0].x
-            if sv.op == "if":
-                a, b = sv.then, sv.other
-                if is_call_to(a, "autograd.util.subvals") and a.args[0] is args and a.args[1].op == "list" and len(a.args[1].elts) == 1:
-                    pr = a.args[1].elts[0]
-                    ok_sub_int = pr.op == "tuple" and pr.elts[0] is argnum and pr.elts[1] is X
-                if is_call_to(b, "autograd.util.subvals") and b.args[0] is args and is_call_to(b.args[1], "builtins.zip"):
-                    z = b.args[1]
-                    ok_sub_tup = len(z.args) == 2 and z.args[0] is argnum and z.args[1] is X
-        _okfail(ctx, "A15", "unary_to_nary: substitution at the same index (int)", ok_sub_int, loc, "unary_f does not substitute x back at position argnum", "grad(f, 1)(a, b): the derivative is taken w.r.t. one argument while another is varied", construct=f"{q}:subst-int")
-        _okfail(ctx, "A15", "unary_to_nary: substitution at the same indices (tuple)", ok_sub_tup, loc, "unary_f does not substitute the tuple back with zip(argnum, x)", "grad(f, (0, 2))(a, b, c)", construct=f"{q}:subst-tuple")
+        ok_sub = {True: False, False: False}
+        ok_kw = True
+        for v in (True, False):
+            clo = forms[v].args[0]
+            while clo.op == "call" and clo.args:
+                clo = clo.args[-1]
+            X = T("sym", name="X", role="param")
+            res = specialise(unseq(expand(ev, ev.apply(clo, [X], {}, []), {"autograd.util.subvals"})), dec(v)) if clo.op == "closure" else None
+            if res is not None and res.op == "call" and res.fn is fun and len(res.args) == 1 and res.args[0].op == "star":
+                ok_kw = ok_kw and len(res.dstar) == 1 and res.dstar[0] is kw
+                a = res.args[0].x
+                if is_call_to(a, "autograd.util.subvals") and len(a.args) == 2 and a.args[0] is args:
+                    S = a.args[1]
+                    if v:
+                        ok_sub[v] = S.op in ("list", "tuple") and len(S.elts) == 1 and S.elts[0].op in ("tuple", "list") and len(S.elts[0].elts) == 2 and S.elts[0].elts[0] is argnum and S.elts[0].elts[1] is X
+                    else:
+                        if S.op == "call" and S.fn.op == "ref" and S.fn.ref.qual in ("builtins.list", "builtins.tuple") and len(S.args) == 1:
+                            S = S.args[0]
+                        ok_sub[v] = is_call_to(S, "builtins.zip") and len(S.args) == 2 and S.args[0] is argnum and S.args[1] is X
+            else:
+                ok_kw = False
+        _okfail(ctx, "A15", "unary_to_nary: substitution at the same index (int)", ok_sub[True], loc, "unary_f does not substitute x back at position argnum", "grad(f, 1)(a, b): the derivative is taken w.r.t. one argument while another is varied", construct=f"{q}:subst-int")
+        _okfail(ctx, "A15", "unary_to_nary: substitution at the same indices (tuple)", ok_sub[False], loc, "unary_f does not substitute the tuple back with zip(argnum, x)", "grad(f, (0, 2))(a, b, c)", construct=f"{q}:subst-tuple")
         _okfail(ctx, "A15", "unary_to_nary: kwargs reach fun unchanged", ok_kw, loc, "keyword arguments are not passed on to fun", "grad(f)(x, option=...)", construct=f"{q}:kwargs")
-        extra = r.args[2:]
-        ok_extra = len(extra) == 1 and extra[0].op == "star" and len(r.dstar) == 1
+        rr = forms[True]
+        extra = rr.args[2:]
+        ok_extra = len(extra) == 1 and extra[0].op == "star" and len(rr.dstar) == 1
         _okfail(ctx, "A15", "unary_to_nary: operator options forwarded", ok_extra, loc, "nary_op_args / nary_op_kwargs are not forwarded to the unary operator", "make_ggnvp(f, g, argnum)", construct=f"{q}:opargs")
 
     def ev_op(name):
@@ -305,31 +344,36 @@ def operators(ctx, world):
         mvc = mvs[0]
         vjp_ = lambda t: t.op == "sub" and t.obj is mvc and t.idx.value == 0
         ans_ = lambda t: t.op == "sub" and t.obj is mvc and t.idx.value == 1
-        r0 = strip_seq(r)
-        # guard
-        if r0.op == "if" and strip_seq(r0.then).op == "raise":
-            c = r0.cond
-            body = strip_seq(r0.other)
-            if name in ("grad", "value_and_grad"):
-                okg = contains(c, lambda t: t.op == "attr" and t.name == "size" and is_call_to(t.obj, "autograd.core.vspace") and ans_(t.obj.args[0])) and contains(c, lambda t: t.op == "cmp" and t.opname in ("Eq", "NotEq") and ((t.r.op == "const" and t.r.value == 1) or (t.l.op == "const" and t.l.value == 1)))
-                why = f"{name} does not raise unless vspace(ans).size == 1"
-                wit = "a function with a vector- or complex-valued output given to grad"
-            else:
-                okg = contains(c, lambda t: t.op == "attr" and t.name == "iscomplex" and is_call_to(t.obj, "autograd.core.vspace") and ans_(t.obj.args[0]))
-                why = "elementwise_grad does not raise on complex outputs"
-                wit = "elementwise_grad of a complex-valued function"
-            _okfail(ctx, "A6.ops", f"{name}: output check raises", okg, loc, why, wit, construct=f"{q}:guard")
+        from ..tutil import cases, unseq
+
+        cs = cases(unseq(r))
+        size_of_ans = lambda t: t.op == "attr" and t.name == "size" and is_call_to(t.obj, "autograd.core.vspace") and len(t.obj.args) == 1 and ans_(t.obj.args[0])
+        one = lambda t: t.op == "const" and type(t.value) is int and t.value == 1
+        if name in ("grad", "value_and_grad"):
+            is_guard = lambda a: a.op == "cmp" and a.opname == "Eq" and ((size_of_ans(a.l) and one(a.r)) or (size_of_ans(a.r) and one(a.l)))
+            good_pol = True  # a value is returned only when size == 1
+            why = f"{name} does not raise unless vspace(ans).size == 1"
+            wit = "a function with a vector- or complex-valued output given to grad"
         else:
-            body = r0
+            is_guard = lambda a: a.op == "attr" and a.name == "iscomplex" and is_call_to(a.obj, "autograd.core.vspace") and len(a.obj.args) == 1 and ans_(a.obj.args[0])
+            good_pol = False
+            why = "elementwise_grad does not raise on complex outputs"
+            wit = "elementwise_grad of a complex-valued function"
+        vals = [c for c in cs if c.leaf.op != "raise"]
+        rais = [c for c in cs if c.leaf.op == "raise"]
+        if not rais:
             ctx.fail("A6.ops", f"{name}: output check raises", f"{q}:guard", loc, f"{name} has no raising output check", "non-scalar / complex output")
+        else:
+            okg = bool(vals) and all(c.pol(is_guard) is good_pol for c in vals) and all(c.pol(is_guard) is (not good_pol) for c in rais)
+            _okfail(ctx, "A6.ops", f"{name}: output check raises", okg, loc, why, wit, construct=f"{q}:guard")
         def is_grad(t):
             t = strip_seq(t)
             return t.op == "call" and vjp_(t.fn) and len(t.args) == 1 and t.args[0].op == "call" and t.args[0].fn.op == "attr" and t.args[0].fn.name == "ones" and is_call_to(t.args[0].fn.obj, "autograd.core.vspace") and ans_(t.args[0].fn.obj.args[0])
         if name == "value_and_grad":
-            ok = body.op == "tuple" and len(body.elts) == 2 and ans_(body.elts[0]) and is_grad(body.elts[1])
-            _okfail(ctx, "A15", "value_and_grad returns (ans untouched, vjp(ones))", ok, loc, f"value_and_grad does not return (ans, vjp(vspace(ans).ones())) with ans exactly as produced by make_vjp (found {str(body)[:90]})", "value_and_grad(f)(x)[0] versus f(x)", construct=f"{q}:result")
+            ok = bool(vals) and all(c.leaf.op == "tuple" and len(c.leaf.elts) == 2 and ans_(c.leaf.elts[0]) and is_grad(c.leaf.elts[1]) for c in vals)
+            _okfail(ctx, "A15", "value_and_grad returns (ans untouched, vjp(ones))", ok, loc, f"value_and_grad does not return (ans, vjp(vspace(ans).ones())) with ans exactly as produced by make_vjp (found {str(vals[0].leaf)[:90] if vals else None})", "value_and_grad(f)(x)[0] versus f(x)[0]", construct=f"{q}:result")
         else:
-            _okfail(ctx, "A15", f"{name} returns vjp(vspace(ans).ones())", is_grad(body), loc, f"{name} does not return vjp(vspace(ans).ones())", "any call", construct=f"{q}:result")
+            _okfail(ctx, "A15", f"{name} returns vjp(vspace(ans).ones())", bool(vals) and all(is_grad(c.leaf) for c in vals), loc, f"{name} does not return vjp(vspace(ans).ones())", "any call", construct=f"{q}:result")
     # ---- deriv
     r, syms, m, node, sc = ev_op("deriv")
     r = strip_seq(r)
@@ -518,7 +562,7 @@ def wrapper_signatures(ctx, world):
                 ctx.ob("A6.wrapsig", inst, True, loc, sample=f"default {dv!r} == numpy's")
             else:
                 ctx.fail("A6.wrapsig", inst, f"numpy_wrapper.{name}:{p}=default", loc, f"default of '{p}' is {dv!r}, NumPy's is {nv!r}", f"np.{name}(...) called without {p}: the primal value differs from NumPy's")
-    ctx.floor("A6.wrapsig parameters", n, 12)
+    ctx.floor("A6.wrapsig parameters", n, 10)
 
 
 RETRACE = {"autograd.numpy.numpy_wrapper.wrap_if_boxes_inside", "autograd.numpy.numpy_wrapper.array", "autograd.numpy.numpy_wrapper.array_from_args", "autograd.numpy.numpy_wrapper._array_from_scalar_or_array"}
@@ -666,7 +710,19 @@ def _canon(t, depth=0):
 
 def _norm_guard(s):
     # len(shape(x)) and ndim(x) are the same quantity
-    return s.replace("len(shape(", "ndim((").replace("ndim((", "ndim(").replace("))) ", ")) ") if False else s.replace("len(shape(arg0))", "ndim(arg0)")
+    import re
+
+    return re.sub(r"len\(shape\(((?:arg|rest|kw:)\w+)\)\)", r"ndim(\1)", s)
+
+
+def _guard_key(cond, raises_when):
+    """canonical text of `the rule raises when <...>`: the condition is reduced to its canonical atom
+    (tutil.atom: not / != / >= / <= / > folded) and the polarity is made part of the text"""
+    from ..tutil import atom
+
+    a, pol = atom(cond)
+    txt = _norm_guard(_canon(a))
+    return txt if (pol == bool(raises_when)) else f"not {txt}"
 
 
 def guards_of(world, ir):
@@ -681,15 +737,15 @@ def guards_of(world, ir):
         if t.op == "if":
             a, b = strip_seq(t.then), strip_seq(t.other)
             if a is not None and a.op == "raise":
-                out.append((_norm_guard(_canon(t.cond)), True, t))
+                out.append((_guard_key(t.cond, True), True, t))
             elif b is not None and b.op == "raise":
-                out.append((_norm_guard(_canon(t.cond)), False, t))
+                out.append((_guard_key(t.cond, False), False, t))
         if t.op == "assert":
-            out.append((_norm_guard(_canon(t.cond)), False, t))
+            out.append((_guard_key(t.cond, False), False, t))
         if t.op == "when":
             e = t.eff
             if e is not None and e.op == "raise":
-                out.append((_norm_guard(_canon(t.cond)), t.pol, t))
+                out.append((_guard_key(t.cond, t.pol), t.pol, t))
         for c in children(t):
             rec(c, depth + 1)
         if t.op == "call":
@@ -832,7 +888,7 @@ def option_domains(ctx, world):
                     f"the rule branches on `{pname}` but only compares it with {sorted(map(repr, d['vals']))}; NumPy also accepts {missing}, which fall into a branch written for a different option",
                     f"the same call with {pname}={missing[0]!r}",
                 )
-    ctx.floor("A6.enum option branches", n, 6)
+    ctx.floor("A6.enum option branches", n, 4)
 
 
 def guard_dominance(ctx, world):
